@@ -113,6 +113,11 @@ impl From<Option<VcfGenotype>> for genotype::Result {
                     },
                     _ => genotype::Result::Skipped(genotype::Skipped::Missing),
                 },
+                // A lone missing allele is how BCF carries a GT that is the missing value ('.'),
+                // which the VCF reader never sees as a genotype at all
+                [a] if a.position().is_none() => {
+                    genotype::Result::Skipped(genotype::Skipped::Missing)
+                }
                 _ => genotype::Result::Error(genotype::Error::PloidyError),
             },
             None => genotype::Result::Skipped(genotype::Skipped::Missing),
